@@ -56,6 +56,13 @@ def field_attr(f):
         parts.append("stride %s %d" % (a["syntax"], a["stride"]) if a["syntax"] == "=" else "stride: %d" % a["stride"])
     if f.get("stride_on_scalar") is not None:
         parts.append("stride = %d" % f["stride_on_scalar"])
+    order = f.get("arg_order")
+    if order:
+        # the arguments of the attribute in another order (the range need not come first)
+        name, first = parts[0].split("(", 1)
+        args = [first] + parts[1:]
+        args = [args[i] for i in order if i < len(args)] + [a for i, a in enumerate(args) if i not in order]
+        return "#[" + name + "(" + ", ".join(args) + ")]"
     return "#[" + ", ".join(parts) + ")]"
 
 
